@@ -536,6 +536,16 @@ def expand(template_path, tree):
                 elif real.get(name) != ty:
                     raise LostAnchor("shim %s: field `%s` is `%s` in /repo, contract expects `%s`" % (p, name, real.get(name), ty))
             gen.shims.append("%s :: %s {%s}" % (f, p, fields))
+        elif d.startswith("const:"):
+            f, cname = [x.strip() for x in d[6:].split("::", 1)]
+            csrc = src_of(f)
+            mm = re.search(r"(?m)^\s*(?:pub(?:\([^)]*\))?\s+)?const\s+%s\s*:\s*([^=;]+)=\s*([^;]+);" % re.escape(cname), rsrc.mask(csrc))
+            if not mm:
+                raise LostAnchor("const %s not found in %s" % (cname, f))
+            ctext = csrc[mm.start(1):mm.end(2)]
+            ty, _, val = ctext.partition("=")
+            emit("pub const %s: %s = %s; // verbatim from %s" % (cname, ty.strip(), val.strip(), f))
+            gen.drops.append("const %s taken verbatim from %s" % (cname, f))
         elif d.startswith("begin_fn:"):
             span_name = d[9:].strip()
             span_first = len(out_lines) + 1
